@@ -3,6 +3,7 @@ CONSTANTS N = 4
   MaxDepth = 1
   P = 2
   MaxSubs = 1
+  AutoEvery = 0
 SPECIFICATION SpecMaint
 INVARIANTS TypeOK TipMaxWork MarkedExcluded
 PROPERTIES RefusalChangesNothing CleanChangesNothing SaveLoadSame NoWorkLoss
